@@ -11,6 +11,7 @@ import (
 	"github.com/hattya/go.sh/interp"
 	"github.com/hattya/go.sh/parser"
 	"github.com/hattya/go.sh/pattern"
+	"github.com/hattya/go.sh/printer"
 
 	"verif/core"
 	"verif/gen"
@@ -158,6 +159,14 @@ func c19Exec(c *core.Ctx, cs c19Case) {
 	for ci := int(c.Index()) % step; ci < ncfg; ci += step {
 		cfg := cfgOf(ci)
 		for _, cmd := range cmds {
+			_ = cfg.Fprint(io.Discard, cmd)
+			c.Eval(1)
+		}
+	}
+	// widths outside the sensible range (the field is a plain int)
+	for _, wd := range []int{0, -1, -1 << 40} {
+		for _, cmd := range cmds {
+			cfg := printer.Config{Indent: printer.Space, Width: wd}
 			_ = cfg.Fprint(io.Discard, cmd)
 			c.Eval(1)
 		}
